@@ -811,9 +811,18 @@ class Sim:
             pv1 = self.pred_var()
             if pv1 is not None and pv1.shape == pv0.shape:
                 self.judge("C07", "committed")
+                nv = float(self.sc["noise_var"])
+                scale = float(np.max(pv0)) + 1e-300
+
+                def too_little(v0, v1):
+                    # one observation at x with noise nv lowers the variance at x by at least
+                    # v0^2 / (v0 + nv); demand half of that, and only where it is far above rounding
+                    exp_drop = v0 * v0 / (v0 + nv)
+                    return exp_drop > 1e-9 * scale and not (v1 < v0 - 0.5 * exp_drop)
+
                 for di, oi, _ in rows:
                     objs = range(pv0.shape[1]) if oi is None else [oi]
-                    if any(not (pv1[di, o] < pv0[di, o] * (1 - 1e-12)) and pv0[di, o] > 1e-300 for o in objs):
+                    if any(too_little(float(pv0[di, o]), float(pv1[di, o])) for o in objs):
                         self.violate("C07", "observations-not-committed-to-the-model", {"design": di, "objective": oi, "var_before": pv0[di].tolist(), "var_after": pv1[di].tolist()})
                         break
         if self.stub is not None and rows and self.stub.pending != 0:
